@@ -133,6 +133,43 @@ let run_S caseno tk =
      List.map (fun x -> x ^ s) ["rk"; "ly"; "se"; "e"; "st"; "of"; "sp"; "h"; "ad"; "sa"])) in
   Printf.printf "S %d %s\n" caseno (pr_transcript labels (s_chain sv levels))
 
+(* family A: prog <mapping value tokens> nidx idx... *)
+let run_A caseno tk =
+  let _prog = next_int tk in
+  let (sv, r) = read_mval tk in
+  let idxs = read_points tk r in
+  match a_access sv idxs with
+  | [pk; ar; sp; heap; rb] ->
+    Printf.printf "A %d %s\n" caseno (pr_transcript ["dir"; "ppk"; "par"; "psp"; "bpk"; "b1"; "bar"; "bsp"; "lg"; "heap"; "rb"]
+      [pk; pk; ar; sp; pk; pk; ar; sp; pk; heap; rb])
+  | l -> Printf.printf "A %d %s\n" caseno (pr_transcript ["err"] l)
+
+(* family P: prog ntypes (t lay R pat*R acc)*ntypes R es*R ss*R nops (op tokens)*nops *)
+let run_P caseno tk =
+  let _prog = next_int tk in
+  let nt = next_int tk in
+  let tys = take_n tk nt (fun tk ->
+    let t = ity_of_nat (nat_of_int (next_int tk)) in let lay = next_int tk in let r = next_int tk in
+    let pat = take_n tk r (fun tk -> opt_of_tok (next tk)) in let acc = next_int tk in
+    { pt_t = t; pt_lay = nat_of_int lay; pt_pat = pat; pt_acc = nat_of_int acc }) in
+  let r = next_int tk in
+  let es = take_n tk r next_z in
+  let ss = take_n tk r next_z in
+  let nops = next_int tk in
+  let ni tk = nat_of_int (next_int tk) in
+  let ops = take_n tk nops (fun tk ->
+    match next_int tk with
+    | 0 -> let ty = ni tk in let kind = ni tk in let h = next_z tk in PCtor (ty, kind, h)
+    | 1 -> PCopy (ni tk)
+    | 2 -> PMove (ni tk)
+    | 3 -> let a = ni tk in let b = ni tk in PAssign (a, b)
+    | 4 -> let a = ni tk in let b = ni tk in PMoveAssign (a, b)
+    | 5 -> let a = ni tk in let b = ni tk in PSwap (a, b)
+    | 6 -> let i = ni tk in let ty = ni tk in PConv (i, ty)
+    | _ -> let a = ni tk in let b = ni tk in PAssignConv (a, b)) in
+  let labels = List.init nops (fun k -> "o" ^ string_of_int (k + 1)) in
+  Printf.printf "P %d %s\n" caseno (pr_transcript labels (p_program tys es ss ops))
+
 (* family X: prog kind ... *)
 let run_X caseno tk =
   let _prog = next_int tk in
@@ -172,6 +209,8 @@ let () =
           | "V" -> run_V !caseno tk
           | "K" -> run_K !caseno tk
           | "S" -> run_S !caseno tk
+          | "A" -> run_A !caseno tk
+          | "P" -> run_P !caseno tk
           | f -> Printf.printf "%s %d unknown-family\n" f !caseno);
          incr caseno
        end
